@@ -121,10 +121,19 @@ def run_cases(ctx, mod):
     """Generic loop: mod.cases(ctx) yields cases, mod.judge(ctx, case) judges them.
     A library exception escaping judge is a violation ('raises'); a harness
     exception makes the shard inconclusive."""
+    twins = getattr(mod, "twins", None)
     for case in mod.cases(ctx):
         if ctx.full():
             break
         safe_judge(ctx, mod, case)
+        if twins is not None:
+            # cases with the same structural signature as the one just judged (same shapes, lengths, common values,
+            # numbers of entries) but other content, judged straight afterwards in the same process: everything the
+            # first case allocated has been freed, so the allocator hands the same addresses to the twin's objects -
+            # whatever the library remembered about the first case by object identity is stale now
+            for twin in twins(ctx, case):
+                ctx.count("twin_cases")
+                safe_judge(ctx, mod, twin)
 
 
 def safe_judge(ctx, mod, case):
